@@ -537,6 +537,14 @@ Proof.
     eapply CInv_ceq; [|eapply (pres_poll_begin (core st)); eauto].
     constructor; intros; try (cbn; reflexivity);
       cbn; unfold updN, updT, th, main; cbn -[Nat.eqb]; eqbs; try reflexivity; congruence.
+  - (* CPollIf *)
+    destruct (is_main t) eqn:Em; cbn [negb] in H; [|inversion H; subst; auto].
+    destruct (gnotified st); inversion H; subst; clear H; [|auto].
+    unfold is_main in Em. apply Nat.eqb_eq in Em. subst t.
+    split; [|prist st 0%nat].
+    eapply CInv_ceq; [|eapply (pres_poll_begin (core st)); eauto].
+    constructor; intros; try (cbn; reflexivity);
+      cbn; unfold updN, updT, th, main; cbn -[Nat.eqb]; eqbs; try reflexivity; congruence.
   - (* CSpawn *)
     destruct (negb (is_main t)); inversion H; subst; clear H; [auto|].
     apply spawn_inv; auto. intros i [].
@@ -717,6 +725,7 @@ Proof.
     destruct (fill_loop (Z.to_nat n) st []) as [st1 ev1] eqn:E. inversion H; subst.
     apply fill_loop_nthr in E. lia.
   - destruct (negb (is_main t)); inversion H; subst; cbn; lia.
+  - destruct (negb (is_main t)); [|destruct (gnotified st)]; inversion H; subst; cbn; lia.
   - destruct (negb (is_main t)); inversion H; subst; cbn; lia.
   - destruct (negb (is_main t)); inversion H; subst; cbn; lia.
   - destruct (negb (is_main t) || cexists (chs st c)); [inversion H; subst; lia|].
